@@ -50,7 +50,7 @@ def run(ctx):
                                             "rule": "replay of one case through the whole configuration matrix", "samples": [rep["case"]["tbl"]]})
         return
     njobs = 4 if ctx.quick else 8
-    num = 14 if ctx.quick else 160
+    num = 14 if ctx.quick else 40
     with cf.ThreadPoolExecutor(max_workers=4 if ctx.quick else 6) as ex:
         res = list(ex.map(lambda j: gen_job(ctx, j, num, ctx.seed * 1000 + j), range(njobs)))
     cases = [c for cs, _ in res for c in cs]
@@ -64,7 +64,7 @@ def run(ctx):
     if len(cases) < 40:
         raise ToolError(f"only {len(cases)} cases generated")
     write_ndjson(ctx.path("cases.ndjson"), cases)
-    per_case = 18 if ctx.quick else 60
+    per_case = 18 if ctx.quick else 30
     run_harness(ctx, "vops2", ["c06", "--in", ctx.path("cases.ndjson"), "--out", ctx.path("res.json"), "--per-case", per_case], timeout=5000)
     res = json.load(open(ctx.path("res.json")))
     if res["tool_errors"]:
